@@ -97,6 +97,8 @@ def _func_of(dump, b):
     return None
 
 
+SIG_BRANCH_TO_END_LABEL = "patch-branches-to-an-end-of-block-label-edge-leads-to-the-block-start"
+SIG_TWIN_CALL_DELETED = "deleted-call-shares-its-return-site-with-the-call-in-front-of-it"
 SIG_TAIL_THEN_INSERT = "code-inserted-at-the-end-of-a-block-left-without-successor-earlier-in-the-batch-misses-the-fallthrough"
 
 
@@ -122,6 +124,16 @@ def c03_known(case, o, issue):
                     return SIG_TAIL_THEN_INSERT
                 if y["op"] == "insert" and y["off"] == size and k < i and emodify._last_mnemonic(y.get("asm")) not in (None, "jmp", "ret"):
                     return SIG_TAIL_THEN_INSERT
+        return None
+    if issue["kind"] in ("branch-target", "call-target"):
+        # a patch branches to / calls an end-of-block (at_end) label: the assembler follows Symbol.referent and
+        # ignores at_end, so the edge leads to the start of the label's block instead of the position behind it
+        ends = {y["name"] for d in emodify.flat_of(case) for y in d["syms"] if y.get("at_end")}
+        for e in case.get("edits", []):
+            for line in e.get("asm", "").splitlines():
+                t = line.replace(",", " ").split()
+                if len(t) == 2 and t[0] in ("jmp", "jne", "je", "call") and t[1] in ends:
+                    return SIG_BRANCH_TO_END_LABEL
         return None
     if not issue["kind"].startswith("return"):
         return None
@@ -157,6 +169,15 @@ def c03_known(case, o, issue):
         own_call = last[0] == "call" and label_func.get(last[1]) == d["func"]
         if own_call and e["op"] == "delete" and e["off"] == 0 and e["len"] == emodify.block_size(d):
             return SIG_SELF_CALL_DELETED
+    # (4) a wholly deleted block ended in a call of the function that the block in front of it calls too: the return
+    #     site of the earlier call becomes the return site of the deleted one, and its return edge goes with the call
+    for b in whole:
+        d = text[b]
+        if d["kind"] != "code" or not d["insns"] or d["insns"][-1][0] != "call" or b == 0:
+            continue
+        p = text[b - 1]
+        if p["kind"] == "code" and p.get("_sect") == d.get("_sect") and p["insns"] and p["insns"][-1] == d["insns"][-1]:
+            return SIG_TWIN_CALL_DELETED
     return None
 
 
